@@ -23,10 +23,33 @@ fn page_size_stub() -> usize {
     4096
 }
 
+// E10: the process-wide queue singletons. `BeanFactory` stores object addresses as integers and casts them back to references;
+// CBMC has to consider every object of the program as the target of such a pointer, and every access to the queue through it
+// splits over all of them (pool creation alone did not finish symbolic execution in 600 s). The factory itself is decided
+// under C26; here `BeanFactory::get_or_default` is stubbed by a lookup in two typed slots that the harness fills with small
+// queues (2 local queues of capacity 2 instead of num_cpus x 256) - same sharing semantics: every pool gets the same instance.
+static mut TASK_Q: *mut std::ffi::c_void = std::ptr::null_mut();
+static mut CO_Q: *mut std::ffi::c_void = std::ptr::null_mut();
+static mut Q_TAG: u64 = 0x2c0ffee; // (keeps this module's statics from being all-zero, see c16_io.rs)
+
+// (an associated function of a type with a lifetime parameter: Kani requires the stub to have as many generic parameters as
+// `BeanFactory::<'_>::get_or_default::<B>`)
+struct StubFactory<'b>(std::marker::PhantomData<&'b ()>);
+impl StubFactory<'_> {
+    fn get_or_default<B: Default>(bean_name: &str) -> &B {
+        unsafe {
+            let p = if bean_name.len() == TASK_GLOBAL_QUEUE_BEAN.len() { TASK_Q } else { CO_Q };
+            assert!(!p.is_null(), "harness: queue singleton not installed");
+            &*p.cast::<B>()
+        }
+    }
+}
+
 fn small_queues() {
-    BeanFactory::init_bean(TASK_GLOBAL_QUEUE_BEAN, OrderedWorkStealQueue::<Task<'static>>::new(2, 2));
-    BeanFactory::init_bean(COROUTINE_GLOBAL_QUEUE_BEAN, OrderedWorkStealQueue::<SchedulableCoroutine>::new(2, 2));
     unsafe {
+        TASK_Q = std::ptr::from_mut(Box::leak(Box::new(OrderedWorkStealQueue::<Task<'static>>::new(2, 2)))).cast();
+        CO_Q = std::ptr::from_mut(Box::leak(Box::new(OrderedWorkStealQueue::<SchedulableCoroutine>::new(2, 2)))).cast();
+        Q_TAG = 1;
         verif_sync::FULL_TIMEOUTS = 0;
         verif_sync::WAITED_NS = 0;
         verif_sync::NOTIFIES = 0;
@@ -38,24 +61,23 @@ fn pool(name: &str) -> CoroutinePool<'static> {
     CoroutinePool::new(String::from(name), crate::common::constants::DEFAULT_STACK_SIZE, 0, 1, 0)
 }
 
-fn identity(p: Option<usize>) -> Option<usize> {
-    p
-}
-
+// (tasks are closures, not fn items: `Box::new` of a fn-item type coerced to `Box<dyn FnOnce>` is an internal compiler error
+// in kani-compiler 0.68, utils.rs:234)
 /// Two tasks with symbolic results and priorities, run one after the other by the pool they were submitted to: each
 /// join returns its own task's value, exactly once (a second join of the same task times out), without blocking.
 #[kani::proof]
-#[kani::unwind(6)]
+#[kani::unwind(3)]
 #[kani::stub(crate::common::now, vnow)]
 #[kani::stub(alloc::fmt::format, fmt_stub)]
 #[kani::stub(crate::common::page_size, page_size_stub)]
+#[kani::stub(crate::common::beans::BeanFactory::get_or_default, StubFactory::get_or_default)]
 fn c02_join_returns_own_result() {
     small_queues();
     let p = pool("p");
     let (v1, v2): (Option<usize>, Option<usize>) = (kani::any(), kani::any());
     let (pr1, pr2): (Option<c_longlong>, Option<c_longlong>) = (kani::any(), kani::any());
-    let id1 = p.submit_task(Some(String::from("t1")), identity, v1, pr1).expect("submit 1");
-    let id2 = p.submit_task(Some(String::from("t2")), identity, v2, pr2).expect("submit 2");
+    let id1 = p.submit_task(Some(String::from("t1")), |p| p, v1, pr1).expect("submit 1");
+    let id2 = p.submit_task(Some(String::from("t2")), |p| p, v2, pr2).expect("submit 2");
     kani::assert(id1 != id2, "distinct tasks have distinct ids");
     kani::assert(p.try_run().is_some(), "first task runs");
     kani::assert(p.try_run().is_some(), "second task runs");
@@ -108,7 +130,7 @@ fn completion_races_with_wait(target: u32) {
     small_queues();
     let p = pool("p");
     let v: Option<usize> = kani::any();
-    let id = p.submit_task(Some(String::from("t")), identity, v, None).expect("submit");
+    let id = p.submit_task(Some(String::from("t")), |p| p, v, None).expect("submit");
     unsafe {
         RACE_POOL = &raw const p;
         B_DONE = false;
@@ -132,10 +154,11 @@ fn completion_races_with_wait(target: u32) {
 macro_rules! c02_race_at {
     ($name:ident, $k:expr) => {
         #[kani::proof]
-        #[kani::unwind(6)]
+        #[kani::unwind(3)]
         #[kani::stub(crate::common::now, vnow)]
         #[kani::stub(alloc::fmt::format, fmt_stub)]
 #[kani::stub(crate::common::page_size, page_size_stub)]
+#[kani::stub(crate::common::beans::BeanFactory::get_or_default, StubFactory::get_or_default)]
         fn $name() {
             completion_races_with_wait($k);
         }
@@ -154,16 +177,17 @@ c02_race_at!(c02_completion_while_blocked, 1000);
 /// Two pools (two event loops) share the process-wide task queue: a task submitted to pool A may be run by pool B's
 /// worker (work stealing). The join, which asks the pool the task was submitted to, must still return the result.
 #[kani::proof]
-#[kani::unwind(6)]
+#[kani::unwind(3)]
 #[kani::stub(crate::common::now, vnow)]
 #[kani::stub(alloc::fmt::format, fmt_stub)]
 #[kani::stub(crate::common::page_size, page_size_stub)]
+#[kani::stub(crate::common::beans::BeanFactory::get_or_default, StubFactory::get_or_default)]
 fn c02_result_reaches_the_waiter_whichever_pool_ran_the_task() {
     small_queues();
     let a = pool("a");
     let b = pool("b");
     let v: Option<usize> = kani::any();
-    let id = a.submit_task(Some(String::from("t")), identity, v, None).expect("submit");
+    let id = a.submit_task(Some(String::from("t")), |p| p, v, None).expect("submit");
     let by_b: bool = kani::any();
     if by_b {
         kani::assert(b.try_run().is_some(), "pool B's worker obtains the task submitted to pool A (work stealing)");
@@ -196,61 +220,74 @@ fn rank(s: PoolState) -> u8 {
     }
 }
 
+fn lifecycle_request(p: &CoroutinePool<'static>) {
+    let before = p.state();
+    let req_stopping: bool = kani::any();
+    let r = if req_stopping { p.stopping() } else { p.stopped() };
+    let after = p.state();
+    match r {
+        Ok(_) => {
+            let target = if req_stopping { PoolState::Stopping } else { PoolState::Stopped };
+            kani::assert(after == target, "an accepted lifecycle request ends in the requested state");
+            kani::assert(after == before || rank(after) == rank(before) + 1, "the pool only moves Running -> Stopping -> Stopped, one edge at a time");
+        }
+        Err(_) => kani::assert(after == before, "a refused lifecycle request leaves the state untouched"),
+    }
+    kani::assert(rank(after) >= rank(before), "the pool never moves backwards");
+}
+
 /// From an ARBITRARY pool state, any 3 lifecycle requests (stopping / stopped, symbolic) only ever move the pool forward by
 /// one documented edge; a refused request leaves the state untouched.
 #[kani::proof]
-#[kani::unwind(5)]
+#[kani::unwind(3)]
 #[kani::stub(crate::common::now, vnow)]
 #[kani::stub(alloc::fmt::format, fmt_stub)]
 #[kani::stub(crate::common::page_size, page_size_stub)]
+#[kani::stub(crate::common::beans::BeanFactory::get_or_default, StubFactory::get_or_default)]
 fn c12_lifecycle_only_moves_forward() {
     small_queues();
     let p = pool("p");
     p.state.set(any_pool_state());
-    let mut k = 0;
-    while k < 3 {
-        let before = p.state();
-        let req_stopping: bool = kani::any();
-        let r = if req_stopping { p.stopping() } else { p.stopped() };
-        let after = p.state();
-        match r {
-            Ok(_) => {
-                let target = if req_stopping { PoolState::Stopping } else { PoolState::Stopped };
-                kani::assert(after == target, "an accepted lifecycle request ends in the requested state");
-                kani::assert(after == before || rank(after) == rank(before) + 1, "the pool only moves Running -> Stopping -> Stopped, one edge at a time");
-            }
-            Err(_) => kani::assert(after == before, "a refused lifecycle request leaves the state untouched"),
-        }
-        kani::assert(rank(after) >= rank(before), "the pool never moves backwards");
-        k += 1;
-    }
+    // (three requests written out: the harnesses of this file run at unwind 3)
+    lifecycle_request(&p);
+    lifecycle_request(&p);
+    lifecycle_request(&p);
     kani::cover!(p.state() == PoolState::Stopped, "reached Stopped");
     core::mem::forget(p);
 }
 
-/// Submissions are accepted exactly while the pool is Running; a refused submission enqueues nothing.
+/// Once stopping has begun (state Stopping or Stopped, symbolic) a submission is refused and enqueues nothing.
 #[kani::proof]
-#[kani::unwind(6)]
+#[kani::unwind(3)]
 #[kani::stub(crate::common::now, vnow)]
 #[kani::stub(alloc::fmt::format, fmt_stub)]
 #[kani::stub(crate::common::page_size, page_size_stub)]
+#[kani::stub(crate::common::beans::BeanFactory::get_or_default, StubFactory::get_or_default)]
 fn c12_stop_rejects_new_work() {
     small_queues();
     let p = pool("p");
-    let st = any_pool_state();
+    let st = if kani::any() { PoolState::Stopping } else { PoolState::Stopped };
     p.state.set(st);
-    let before = p.size();
-    let r = p.submit_task(Some(String::from("t")), identity, kani::any(), kani::any());
-    kani::assert(r.is_ok() == (st == PoolState::Running), "submissions are accepted exactly while the pool is Running");
-    if r.is_err() {
-        kani::assert(p.size() == before, "a rejected submission enqueues nothing");
-    } else {
-        kani::assert(p.size() == before + 1, "an accepted submission is queued");
-        // take it out again so that nothing is left queued
-        kani::assert(p.try_run().is_some(), "the accepted task runs");
-    }
-    kani::cover!(r.is_err(), "rejected");
-    kani::cover!(r.is_ok(), "accepted");
+    let r = p.submit_task(Some(String::from("t")), |p| p, kani::any(), kani::any());
+    kani::assert(r.is_err(), "submissions are rejected once stopping has begun");
+    kani::assert(p.task_queue.is_local_empty() && p.task_queue.is_global_empty(), "a rejected submission enqueues nothing");
+    kani::cover!(st == PoolState::Stopped, "stopped");
+    core::mem::forget(p);
+}
+
+/// While Running a submission is accepted and queued (one queue push; thorough tier: the ordered queue is expensive).
+#[kani::proof]
+#[kani::unwind(3)]
+#[kani::stub(crate::common::now, vnow)]
+#[kani::stub(alloc::fmt::format, fmt_stub)]
+#[kani::stub(crate::common::page_size, page_size_stub)]
+#[kani::stub(crate::common::beans::BeanFactory::get_or_default, StubFactory::get_or_default)]
+fn c12_running_pool_accepts_work() {
+    small_queues();
+    let p = pool("p");
+    let r = p.submit_task(Some(String::from("t")), |p| p, kani::any(), kani::any());
+    kani::assert(r.is_ok(), "a running pool accepts submissions");
+    kani::assert(p.task_queue.local_len() == 1, "an accepted submission is queued");
     core::mem::forget(p);
 }
 
@@ -268,10 +305,11 @@ fn cleaner() {
     }
 }
 #[kani::proof]
-#[kani::unwind(6)]
+#[kani::unwind(3)]
 #[kani::stub(crate::common::now, vnow)]
 #[kani::stub(alloc::fmt::format, fmt_stub)]
 #[kani::stub(crate::common::page_size, page_size_stub)]
+#[kani::stub(crate::common::beans::BeanFactory::get_or_default, StubFactory::get_or_default)]
 fn c12_stop_settles_waiters() {
     small_queues();
     let mut p = pool("p");
@@ -306,10 +344,11 @@ fn task1(p: Option<usize>) -> Option<usize> {
     p
 }
 #[kani::proof]
-#[kani::unwind(6)]
+#[kani::unwind(3)]
 #[kani::stub(crate::common::now, vnow)]
 #[kani::stub(alloc::fmt::format, fmt_stub)]
 #[kani::stub(crate::common::page_size, page_size_stub)]
+#[kani::stub(crate::common::beans::BeanFactory::get_or_default, StubFactory::get_or_default)]
 fn c13_cancel_before_start_affects_only_that_task() {
     small_queues();
     CANCEL_TASKS.clear();
@@ -317,8 +356,8 @@ fn c13_cancel_before_start_affects_only_that_task() {
     unsafe { RAN = [0; 2] };
     let p = pool("p");
     let (v0, v1): (Option<usize>, Option<usize>) = (kani::any(), kani::any());
-    let id0 = p.submit_task(Some(String::from("t0")), task0, v0, kani::any()).expect("submit 0");
-    let id1 = p.submit_task(Some(String::from("t1")), task1, v1, kani::any()).expect("submit 1");
+    let id0 = p.submit_task(Some(String::from("t0")), |p| task0(p), v0, kani::any()).expect("submit 0");
+    let id1 = p.submit_task(Some(String::from("t1")), |p| task1(p), v1, kani::any()).expect("submit 1");
     let cancel_first: bool = kani::any();
     let (cid, oid, ov, ci, oi) = if cancel_first { (id0, id1, v1, 0, 1) } else { (id1, id0, v0, 1, 0) };
     CoroutinePool::try_cancel_task(cid);
@@ -338,17 +377,18 @@ fn c13_cancel_before_start_affects_only_that_task() {
 }
 
 #[kani::proof]
-#[kani::unwind(6)]
+#[kani::unwind(3)]
 #[kani::stub(crate::common::now, vnow)]
 #[kani::stub(alloc::fmt::format, fmt_stub)]
 #[kani::stub(crate::common::page_size, page_size_stub)]
+#[kani::stub(crate::common::beans::BeanFactory::get_or_default, StubFactory::get_or_default)]
 fn c13_waiter_of_a_cancelled_task_is_not_left_blocked() {
     small_queues();
     CANCEL_TASKS.clear();
     RUNNING_TASKS.clear();
     unsafe { RAN = [0; 2] };
     let p = pool("p");
-    let id = p.submit_task(Some(String::from("t0")), task0, kani::any(), None).expect("submit");
+    let id = p.submit_task(Some(String::from("t0")), |p| task0(p), kani::any(), None).expect("submit");
     CoroutinePool::try_cancel_task(id);
     // the worker meets the cancelled task while the waiter is blocked
     unsafe {
@@ -387,10 +427,11 @@ fn any_co_state() -> SchedulableCoroutineState {
 /// Cancelled) is subtracted exactly once, every other transition leaves the count alone (no task queued, so no worker is
 /// created), and the count never wraps below zero.
 #[kani::proof]
-#[kani::unwind(5)]
+#[kani::unwind(3)]
 #[kani::stub(crate::common::now, vnow)]
 #[kani::stub(alloc::fmt::format, fmt_stub)]
 #[kani::stub(crate::common::page_size, page_size_stub)]
+#[kani::stub(crate::common::beans::BeanFactory::get_or_default, StubFactory::get_or_default)]
 fn c11_listener_counts_terminated_workers() {
     small_queues();
     let p = pool("p");
@@ -418,10 +459,11 @@ fn c11_listener_counts_terminated_workers() {
 /// submit_co: for every running count and maximum size, a worker is created exactly when running < max, the count then
 /// grows by exactly one, and it never exceeds the maximum.
 #[kani::proof]
-#[kani::unwind(5)]
+#[kani::unwind(3)]
 #[kani::stub(crate::common::now, vnow)]
 #[kani::stub(alloc::fmt::format, fmt_stub)]
 #[kani::stub(crate::common::page_size, page_size_stub)]
+#[kani::stub(crate::common::beans::BeanFactory::get_or_default, StubFactory::get_or_default)]
 fn c11_submit_co_respects_max_size() {
     small_queues();
     let p = pool("p");
